@@ -99,7 +99,10 @@ func (f *Frame) HasImage() bool {
 
 // toNRGBA converts any image.Image to *image.NRGBA.
 func toNRGBA(src image.Image) *image.NRGBA {
-	if nrgba, ok := src.(*image.NRGBA); ok {
+	// The encoder clones and compares canvases through their Pix slices, so an
+	// NRGBA is only used as it is when it is tightly packed at the origin; a
+	// sub-image view (non-zero origin or row padding) is copied out.
+	if nrgba, ok := src.(*image.NRGBA); ok && nrgba.Rect.Min == (image.Point{}) && nrgba.Stride == 4*nrgba.Rect.Dx() {
 		return nrgba
 	}
 	b := src.Bounds()
